@@ -59,6 +59,24 @@ pub fn replay(id: &str, cfg: &Config, path: &Path) -> i32 {
 	let case = j.get("case").cloned().unwrap_or(serde_json::Value::Null);
 	let sub = case.get("sub").and_then(|s| s.as_str()).unwrap_or("");
 	let fired: Option<Vec<String>> = match (id, sub) {
+		// a panic of the library somewhere in the workload: the workload of the recorded tier and seed is run again
+		(_, "library-panic") => {
+			let mut c2 = cfg.clone();
+			if let Some(seed) = j.get("seed").and_then(|x| x.as_u64()) {
+				c2.seed = seed;
+			}
+			if j.get("tier").and_then(|x| x.as_str()) == Some("thorough") {
+				c2.tier = crate::monitor::Tier::Thorough;
+			}
+			// the re-run writes its findings to a scratch directory, not over the committed evidence
+			c2.verif_dir = std::env::temp_dir().join(format!("jsv-replay-{}", std::process::id()));
+			let _ = std::fs::create_dir_all(c2.verif_dir.join("evidence"));
+			let _ = std::fs::create_dir_all(c2.verif_dir.join("replays"));
+			let _ = std::fs::copy(cfg.verif_dir.join("known-findings.txt"), c2.verif_dir.join("known-findings.txt"));
+			let code = run(id, &c2);
+			let _ = std::fs::remove_dir_all(&c2.verif_dir);
+			Some(if code == 1 { vec![format!("the {} workload reports a violation again", id)] } else { vec![] })
+		}
 		("C01" | "C02" | "C05" | "C07" | "C12", "parse-input") => {
 			let input = crate::monitor::unhex(case.get("input_hex").and_then(|s| s.as_str()).unwrap_or(""));
 			let flags = parsefam::Flags {
